@@ -495,7 +495,11 @@ def _potdef_cached(depth, has_custom, has_table, max_ranges, leaf_names, allow_s
         lambda t: t[0] is not None or t[3] is not None).map(_ranged)
     ranged_pow = st.tuples(_positive_leaf(), ranged_exp).map(
         lambda t: {"k": "mod", "m": "pow", "args": [_single(t[0]), t[1]]})
-    powmod = st.one_of(simple_pow, simple_pow, ranged_pow, nested_pow) if depth >= 2 else st.one_of(simple_pow, simple_pow, ranged_pow)
+    # a base that changes sign (c1 r - c0) under a whole-number exponent >= 2: a**n and its derivatives exist everywhere
+    signed_pow = st.tuples(fl(0.5, 4.0, sig=2), st.sampled_from([1, 1.0, 2, 0.5]), st.sampled_from([2, 3, 4, 2.0])).map(
+        lambda t: {"k": "mod", "m": "pow", "args": [_single({"k": "form", "name": "polynomial", "p": [-t[0], t[1]]}),
+                                                    _single({"k": "form", "name": "constant", "p": [t[2]]})]})
+    powmod = st.one_of(simple_pow, simple_pow, ranged_pow, signed_pow, nested_pow) if depth >= 2 else st.one_of(simple_pow, simple_pow, ranged_pow, signed_pow)
     splmod = spline_node()
 
     def make_pd(simple_s):
@@ -538,6 +542,23 @@ def _potdef_cached(depth, has_custom, has_table, max_ranges, leaf_names, allow_s
             mods.append(splmod)
         pd_s = make_pd(st.one_of(leaf, leaf, *mods))
     return pd_s
+
+
+@st.composite
+def node_break_potdef(draw, nodes):
+    """a multi-range definition whose break points are EXACTLY the given grid positions (floats produced by the
+    format's own row formula, rendered with repr so that the file holds the same float): the row then belongs to the
+    side the marker says ('>=s' includes s, '>s' does not) - whichever way the writer computes its row positions, if
+    it is the documented way it lands on s itself"""
+    nodes = sorted(set(float(x) for x in nodes if x > 0))[:3]
+    bodies = draw(st.permutations([{"k": "form", "name": "constant", "p": [1.25]}, {"k": "form", "name": "constant", "p": [-3.5]},
+                                   {"k": "form", "name": "polynomial", "p": [0.5, 2]}, {"k": "form", "name": "bornmayer", "p": [50.0, 0.7]},
+                                   {"k": "form", "name": "zero", "p": []}]))
+    first = draw(st.sampled_from([(None, None), (">=", 0), (">", 0)]))
+    rgs = [{"m": first[0], "s": first[1], "body": bodies[0]}]
+    for i, x in enumerate(nodes):
+        rgs.append({"m": draw(st.sampled_from([">", ">="])), "s": x, "body": bodies[i + 1]})
+    return {"ranges": rgs}
 
 
 VARIATIONS = ["copy", "add_range", "add_range", "drop_range", "shift_start", "flip_marker", "other_first_body",
